@@ -74,13 +74,13 @@ func opKs(args []string) string {
 }
 
 type secArgs struct {
-	alg          int
-	key          [16]byte
-	count        uint32
-	bearer, dir  uint64
-	data         []byte
-	isNil        bool
-	bitlen       uint64
+	alg         int
+	key         [16]byte
+	count       uint32
+	bearer, dir uint64
+	data        []byte
+	isNil       bool
+	bitlen      uint64
 }
 
 func parseSec(args []string, withLen bool) (secArgs, bool) {
@@ -400,7 +400,34 @@ func genSecApi(g *Gen, w *bufio.Writer) {
 			fmt.Fprintf(w, "nasenc %d %s %d %d %d %s\n", alg, key(), uint32(g.U64()), g.Intn(32), g.Intn(2), hexs(g.Bytes(n)))
 			fmt.Fprintf(w, "nasmac %d %s %d %d %d %s\n", alg, key(), uint32(g.U64()), g.Intn(32), g.Intn(2), hexs(g.Bytes(n)))
 		}
+		// long payloads, around every power of two up to 8 KiB (64 KiB in thorough) and with every residue modulo 4: block /
+		// chunk boundaries of an implementation that produces its keystream piecewise
+		top := 13
+		if g.Tier == "thorough" {
+			top = 16
+		}
+		for e := 7; e <= top; e++ {
+			for _, dl := range []int{-3, -1, 0, 1, 2, 5} {
+				n := 1<<uint(e) + dl
+				fmt.Fprintf(w, "nasenc %d %s %d %d %d %s\n", alg, key(), uint32(g.U64()), g.Intn(32), g.Intn(2), hexs(g.Bytes(n)))
+				if dl == 1 || dl == 0 {
+					fmt.Fprintf(w, "nasmac %d %s %d %d %d %s\n", alg, key(), uint32(g.U64()), g.Intn(32), g.Intn(2), hexs(g.Bytes(n)))
+				}
+			}
+		}
 	}
+}
+
+// window returns data as a slice of a larger buffer (24 octets of spare capacity filled with a pattern) and a check that those
+// octets, which belong to the caller and not to the message, are unchanged
+func window(data []byte) ([]byte, func() bool) {
+	buf := make([]byte, len(data)+24)
+	copy(buf, data)
+	for i := len(data); i < len(buf); i++ {
+		buf[i] = byte(0x5a + i)
+	}
+	tail := append([]byte{}, buf[len(data):]...)
+	return buf[:len(data)], func() bool { return bytes.Equal(buf[len(data):], tail) }
 }
 
 // ---- C08: the API laws, evaluated on the real code ----
@@ -414,10 +441,14 @@ func oracleC08(op string, args []string) string {
 	switch op {
 	case "nasenc":
 		var p []byte
+		tailOK := func() bool { return true }
 		if !a.isNil {
-			p = append([]byte{}, a.data...)
+			p, tailOK = window(a.data)
 		}
 		err := security.NASEncrypt(uint8(a.alg), a.key, a.count, uint8(a.bearer), uint8(a.dir), p)
+		if !tailOK() {
+			return "FAIL octets behind the payload (spare capacity of the caller's slice) were modified"
+		}
 		invalid := a.bearer > 31 || a.dir > 1 || a.isNil || a.alg > 3
 		if invalid {
 			if err == nil {
@@ -466,19 +497,28 @@ func oracleC08(op string, args []string) string {
 			step = 1 + len(a.data)/40
 		}
 		for n := 0; n <= len(a.data); n += step {
-			pre := append([]byte{}, a.data[:n]...)
+			// the prefix as a window of the whole plaintext: what lies behind it belongs to the caller
+			whole := append([]byte{}, a.data...)
+			pre := whole[:n]
 			security.NASEncrypt(uint8(a.alg), a.key, a.count, uint8(a.bearer), uint8(a.dir), pre)
 			if !bytes.Equal(pre, p[:n]) {
 				return fmt.Sprintf("FAIL ciphertext of the %d-octet prefix is not the prefix of the ciphertext", n)
+			}
+			if !bytes.Equal(whole[n:], a.data[n:]) {
+				return fmt.Sprintf("FAIL ciphering the %d-octet prefix of a buffer modified the octets behind it", n)
 			}
 		}
 		return "pass"
 	case "nasmac":
 		var p []byte
+		tailOK := func() bool { return true }
 		if !a.isNil {
-			p = append([]byte{}, a.data...)
+			p, tailOK = window(a.data)
 		}
 		mac, err := security.NASMacCalculate(uint8(a.alg), a.key, a.count, uint8(a.bearer), uint8(a.dir), p)
+		if !tailOK() {
+			return "FAIL octets behind the message (spare capacity of the caller's slice) were modified"
+		}
 		invalid := a.bearer > 31 || a.dir > 1 || a.isNil || a.alg > 3
 		if invalid {
 			if err == nil {
@@ -514,6 +554,20 @@ func oracleC08(op string, args []string) string {
 		mac3, _ := security.NASMacCalculate(uint8(a.alg), a.key, a.count, uint8(a.bearer), uint8(a.dir), p)
 		if !bytes.Equal(mac3, keep) {
 			return fmt.Sprintf("FAIL MAC changed after the caller wrote into an earlier result: %x, was %x", mac3, keep)
+		}
+		// the MAC of a prefix taken as a window of the message leaves the rest of the message alone
+		for _, n := range []int{len(a.data) / 2, len(a.data) - 1, len(a.data) - 3, len(a.data) - 7} {
+			if n < 0 {
+				continue
+			}
+			whole := append([]byte{}, a.data...)
+			security.NASMacCalculate(uint8(a.alg), a.key, a.count, uint8(a.bearer), uint8(a.dir), whole[:n])
+			if !bytes.Equal(whole, a.data) {
+				return fmt.Sprintf("FAIL the MAC over the first %d octets of a buffer modified the buffer", n)
+			}
+		}
+		if !tailOK() {
+			return "FAIL octets behind the message (spare capacity of the caller's slice) were modified"
 		}
 		return "pass"
 	}
@@ -708,11 +762,74 @@ func genSecSpec(g *Gen, w *bufio.Writer) {
 	for i := 0; i < 200; i++ {
 		fmt.Fprintf(w, "snasenc %d %s %d %d %d %s\n", 1+g.Intn(3), key(), uint32(g.U64()), g.Intn(32), g.Intn(2), hexs(g.Bytes(g.Intn(70))))
 	}
+	// the same key, COUNT, bearer and direction used again with other lengths (retransmission, a longer message after a shorter
+	// one): each answer must still be the specification's, whatever an earlier call with the same parameters left behind
+	for alg := 1; alg <= 3; alg++ {
+		for _, seq := range [][]int{{13, 15}, {15, 5, 12}, {1, 2, 3, 4, 5, 6, 7, 8, 9}, {33, 31, 34, 64, 63, 65}, {100, 7, 99, 100, 101}, {0, 1, 0, 17}} {
+			k, c, b, d := key(), uint32(g.U64()), g.Intn(32), g.Intn(2)
+			for _, n := range seq {
+				fmt.Fprintf(w, "snasenc %d %s %d %d %d %s\n", alg, k, c, b, d, hexs(g.Bytes(n)))
+			}
+			for _, n := range seq {
+				data := g.Bytes(n)
+				bits := n * 8
+				if n > 0 {
+					bits -= g.Intn(8)
+					if r := uint(n*8 - bits); r > 0 {
+						data[n-1] &= 0xff << r
+					}
+				}
+				fmt.Fprintf(w, "snea %d %s %d %d %d %s %d\n", alg, k, c, b, d, hexs(data), bits)
+			}
+			for _, n := range seq {
+				fmt.Fprintf(w, "snasmac %d %s %d %d %d %s\n", alg, k, c, b, d, hexs(g.Bytes(n)))
+			}
+			for _, n := range seq {
+				fmt.Fprintf(w, "snasenc %d %s %d %d %d %s\n", alg, k, c, b, d, hexs(g.Bytes(n)))
+				fmt.Fprintf(w, "snasmac %d %s %d %d %d %s\n", alg, k, c, b, d, hexs(g.Bytes(n)))
+			}
+		}
+	}
+	// neighbouring parameter sets back to back under one key: (COUNT, BEARER, DIRECTION) and the same with one or two bits
+	// flipped (every single bit; every pair out of a selection that includes the top COUNT bit, the direction and every bearer
+	// bit). Whatever a call remembers about its parameters must distinguish all of them.
+	type flip struct {
+		c    uint32
+		b, d int
+	}
+	var items []flip
+	for _, i := range []uint{31, 30, 24, 23, 16, 15, 8, 7, 1, 0} {
+		items = append(items, flip{c: 1 << i})
+	}
+	for j := 0; j < 5; j++ {
+		items = append(items, flip{b: 1 << uint(j)})
+	}
+	items = append(items, flip{d: 1})
+	var flips []flip
+	for i := uint(0); i < 32; i++ {
+		flips = append(flips, flip{c: 1 << i})
+	}
+	flips = append(flips, items[10:]...)
+	for i := range items {
+		for j := i + 1; j < len(items); j++ {
+			flips = append(flips, flip{items[i].c ^ items[j].c, items[i].b ^ items[j].b, items[i].d ^ items[j].d})
+		}
+	}
+	for alg := 1; alg <= 3; alg++ {
+		for _, op := range []string{"snasenc", "snasmac"} {
+			k, c, b, d := key(), uint32(g.U64()), g.Intn(32), g.Intn(2)
+			data := hexs(g.Bytes(9 + g.Intn(12)))
+			for _, f := range flips {
+				fmt.Fprintf(w, "%s %d %s %d %d %d %s\n", op, alg, k, c, b, d, data)
+				fmt.Fprintf(w, "%s %d %s %d %d %d %s\n", op, alg, k, c^f.c, b^f.b, d^f.d, data)
+			}
+		}
+	}
 	// ZUC LFSR step against its definition over GF(2^31-1): random in-range states and states steered into the residue
 	// class 0 (which the specification maps to 2^31-1), in both modes
 	const M = uint64(0x7fffffff)
 	rot := func(x uint64, k uint) uint64 { return (x << k) % M }
-	for i := 0; i < 300; i++ {
+	for i := 0; i < 450; i++ {
 		var c [16]uint64
 		for j := range c {
 			c[j] = g.U64()%M + 1
@@ -726,8 +843,11 @@ func genSecSpec(g *Gen, w *bufio.Writer) {
 		}
 		if i%3 != 2 {
 			// choose cell 4 so that the feedback sum is 0 mod 2^31-1: 2^20 * c4 = -(rest), and 2^-20 = 2^11
+			// ... or a small non-zero residue t: the exact sum is then q*(2^31-1) + t = q*2^31 + (t - q), i.e. a low part just
+			// below 2^31 plus a carry that pushes a once-folded value to 2^31 or beyond (needs the second fold)
 			rest := (c[0] + rot(c[0], 8) + rot(c[10], 21) + rot(c[13], 17) + rot(c[15], 15) + u) % M
-			c4 := ((M - rest) % M << 11) % M
+			t := []uint64{0, 1, 0, 2, 3, 0, 5, 6, M - 1}[i%9]
+			c4 := ((t + M - rest) % M << 11) % M
 			if c4 == 0 {
 				c4 = M
 			}
